@@ -912,15 +912,15 @@ PROPS = {
     },
     'C02': P(with_state(with_cons(gen_c02, encs=('w',)), [], encs=('w',), sched=True), 'Proved in Coq for all byte strings (Props/C02.v): the model prefix parser equals the declarative six-kind grammar, the component list equals the specification wspec, every prefix/root/absoluteness query equals its definition over that decomposition, drive letters are upper-case ASCII, at most one prefix and only first. The same specification is evaluated on the implementation output of every explored case (oracle_c02: components from both ends, 13 queries, try_from, prefix length/verbatim flag).', NOTE_CORR),
     'C03': P(with_state(gen_c03, [], sched=True), 'Double-ended coherence: interleaving theorem over the generic core parser (CoreSched.sched_spec) instantiated for Unix and for the Windows body; back = reverse of front, termination, permanent exhaustion, prefix only first; conservation at the level of the split (C03_conservation). The slice sentence is a theorem for the generic core and any schedule (C03_slices, C03_slices_ordered, C03_unix_slices): every normal name is the slice of the original input at the reported offset, the windows of unconsumed input are nested and each slice lies inside the window before its step and outside the one after it, so slices are pairwise disjoint, front slices ascend and back slices descend; the offsets are those the model prints (C03_unix_reported_offsets), compared with the implementation on every case. The same is a theorem for the whole Windows iterator (C03_windows_slices, C03_windows_reported_offsets): the prefix component is the leading slice of the window, the body is the generic core over what follows it, and the offsets are those the model prints.', NOTE_CORR),
-    'C04': P(with_state(with_cons(gen_pairs('c04')), ['pushc']), 'Proved in Coq for all inputs (Props/C04.v): a checked push either fails and leaves the base byte-for-byte unchanged or succeeds with exactly the unchecked join, decided by the scan over the specification components of p (both encodings); the scan succeeds iff no prefix, no root, no normal name with a forbidden byte, and no .. outnumbering the normal names before it (Unix and Windows), otherwise it names the first offending component (Unix); containment: on success the result components begin with exactly the base components followed by p minus a leading . -- at Unix for every base, at Windows for every base that is prefix-free (not starting with two separators) or has a drive prefix (WinSimple.v), has a UNC / device / drive prefix followed by a non-empty rest (C04_windows_contains_prefixed, WinExtend.v: such a prefix is read the same way whatever follows it), is a bare UNC prefix with a non-empty share or a bare device prefix (C04_windows_contains_bare, WinBare.v: base, implied root, what p adds), or has a verbatim prefix followed by a root (C04_windows_contains_verbatim, WinVerbJoin.v: the join folds and re-renders; a writer/reader round-trip theorem shows the result reads back as the fold, and what the scan accepts never reaches below the base). For the remaining Windows bases (a verbatim prefix with nothing or a rootless name after it, and the finding classes) the containment sentence is stated over the specification by the oracle itself (Oracles.c04_contains) and evaluated on every explored pair; it fails on the unchanged crate only in two recorded input classes, the base of exactly two separators (D10) and the verbatim prefix named UNC (D17), each with a refuted-witness lemma.', NOTE_CORR),
+    'C04': P(with_state(with_cons(gen_pairs('c04')), ['pushc']), 'Proved in Coq for all inputs (Props/C04.v): a checked push either fails and leaves the base byte-for-byte unchanged or succeeds with exactly the unchecked join, decided by the scan over the specification components of p (both encodings); the scan succeeds iff no prefix, no root, no normal name with a forbidden byte, and no .. outnumbering the normal names before it (Unix and Windows), otherwise it names the first offending component (Unix); containment: on success the result components begin with exactly the base components followed by p minus a leading . -- at Unix for every base, at Windows for every base that is prefix-free (not starting with two separators) or has a drive prefix (WinSimple.v), has a UNC / device / drive prefix followed by a non-empty rest (C04_windows_contains_prefixed, WinExtend.v: such a prefix is read the same way whatever follows it), is a bare UNC prefix with a non-empty share or a bare device prefix (C04_windows_contains_bare, WinBare.v: base, implied root, what p adds), or has a verbatim prefix followed by a root (C04_windows_contains_verbatim, WinVerbJoin.v: the join folds and re-renders; a writer/reader round-trip theorem shows the result reads back as the fold, and what the scan accepts never reaches below the base), or is a bare verbatim prefix joined with names (C04_windows_contains_bare_verbatim, WinVerbBare.v). For the remaining Windows bases (a bare verbatim prefix joined with a path that holds . or .., a verbatim drive followed by a rootless name, which Spec.wf_comps does not count as well-formed, and the finding classes) the containment sentence is stated over the specification by the oracle itself (Oracles.c04_contains) and evaluated on every explored pair; it fails on the unchanged crate only in two recorded input classes, the base of exactly two separators (D10) and the verbatim prefix named UNC (D17), each with a refuted-witness lemma.', NOTE_CORR),
     'C05': P(with_state(with_cons(gen_pairs('c05')), ['push', 'sfn'], sched=True), 'Proved in Coq for all byte strings, both encodings (Props/C05.v): equality iff equal specification component sequences (Windows prefixes by parsed kind), the order is the lexicographic lift of the component order and is total (antisymmetric, transitive, Equal iff equal), the hasher feed is the derived hash of the parsed prefix kind followed by the bytes of every non-root component and their total length, hence equal paths feed identical data (C05_unix_eq_same_hash, C05_windows_eq_same_hash, C05_windows_hash_feed; the separator scan is proved once for any separator test and normalisation flag). All closed under the global context; the same statements are evaluated on the implementation output (recorded Hasher calls) of every explored pair by oracle_c05.', NOTE_CORR),
     'C06': P(with_state(gen_c06, [], encs=('u',), sched=True), 'Proved in Coq for all byte strings (Props/C06.v): the Gallina transcription of std::path (Components state machine, as_path trimming, parent, file_name, file_stem, extension, starts_with, ends_with, strip_prefix, eq, cmp, ancestors) and the typed-path model give the same answer: components from both ends, eq, cmp, has_root, file_name/stem/extension byte for byte, starts_with, ends_with; parent and ancestors identical as byte strings (C06_parent_bytes: s_parent l = u_parent l for all l; the next_back + as_path trimming of std computes the skip-back-keep-the-lead function of the model; C06_ancestors_bytes); strip_prefix succeeds for both or neither with equal remainders as paths (bytes differ exactly in known class D8, refuted-witness lemma). The transcription is diffed against the real std::path on every explored case (pair.c06).', NOTE_CORR),
     'C07': P(with_state(with_cons(gen_c07, encs=('u',)), ALL_FOCUS, encs=('u',)), 'Proved in Coq (Props/C07.v): for EVERY history of push / pop / set_file_name / clear / extend / collect / join / with_file_name and every pair of component-equal start buffers, the typed-path buffer and the std::path::PathBuf transcription are component-equal after every step and every boolean result agrees (C07_history, by induction over the history); a non-empty push is the same byte function on both sides, also when std carries the extra trailing / left by an empty push (relation Rb). Rb is kept by ALL eight operations over every history (C07_history_bytes; pop and set_file_name by the byte identity of the two parents, C07_pop_keeps_R, C07_set_file_name_keeps_R), so after any history a push or join of a non-empty path leaves byte-identical buffers (C07_history_then_push_bytes). Every explored history is also run on the real std::path::PathBuf (pair.hist: booleans, component equality, byte equality after non-empty pushes).', NOTE_CORR),
-    'C08': P(with_state(with_cons(gen_c08, encs=('w',)), ['push', 'join', 'extend', 'collect'], encs=('w',)), 'Proved in Coq for ALL pairs of byte strings: the model of WindowsEncoding::push equals the documented rule table Spec.join_spec (written over the grammar specification only), every history of pushes is the same fold of the table, empty b changes nothing, a prefixed b replaces a, the non-verbatim results are a (or its prefix) + optional separator + b, the verbatim step never lets a . or .. through (Props/C08.v: C08_bytes, C08_histories, C08_empty, C08_prefixed, C08_nonverbatim_bytes, C08_verbatim_step_clean; closed under the global context). join_spec itself is evaluated on the implementation output of every explored pair and push history (oracle_c08, oracle_hist). The component-level reading (a components followed by b components, a prefix followed by b for rooted b, bare drive without separator) is proved for every a that is prefix-free or has a drive prefix (C08_comps_plain, C08_comps_disk, C08_comps_rooted_disk), has a UNC / device / drive prefix followed by a non-empty rest (C08_comps_prefixed, C08_comps_rooted_prefixed, over C08_prefix_grammar_stable: such a prefix is read the same way whatever follows it), is a bare complete prefix (C08_comps_bare, C08_comps_rooted_bare: prefix, implied root, what b adds), or has a verbatim prefix followed by a root (C08_comps_verbatim: the result read again is exactly the fold of b into a; C08_verbatim_prefix_stable, C08_write_read_roundtrip). What is left -- a verbatim prefix with nothing or a rootless name after it, the verbatim prefix named UNC (D17, the exception the stability theorem carries, with a refuted-witness lemma) and a server with an empty share -- is decided by the C10 oracle.', NOTE_CORR),
+    'C08': P(with_state(with_cons(gen_c08, encs=('w',)), ['push', 'join', 'extend', 'collect'], encs=('w',)), 'Proved in Coq for ALL pairs of byte strings: the model of WindowsEncoding::push equals the documented rule table Spec.join_spec (written over the grammar specification only), every history of pushes is the same fold of the table, empty b changes nothing, a prefixed b replaces a, the non-verbatim results are a (or its prefix) + optional separator + b, the verbatim step never lets a . or .. through (Props/C08.v: C08_bytes, C08_histories, C08_empty, C08_prefixed, C08_nonverbatim_bytes, C08_verbatim_step_clean; closed under the global context). join_spec itself is evaluated on the implementation output of every explored pair and push history (oracle_c08, oracle_hist). The component-level reading (a components followed by b components, a prefix followed by b for rooted b, bare drive without separator) is proved for every a that is prefix-free or has a drive prefix (C08_comps_plain, C08_comps_disk, C08_comps_rooted_disk), has a UNC / device / drive prefix followed by a non-empty rest (C08_comps_prefixed, C08_comps_rooted_prefixed, over C08_prefix_grammar_stable: such a prefix is read the same way whatever follows it), is a bare complete prefix (C08_comps_bare, C08_comps_rooted_bare: prefix, implied root, what b adds), or has a verbatim prefix followed by a root (C08_comps_verbatim: the result read again is exactly the fold of b into a; C08_verbatim_prefix_stable, C08_write_read_roundtrip), or is a bare verbatim prefix joined with names (C08_comps_bare_verbatim over C08_bare_verbatim_prefix_stable: prefix, implied root, the names); and over every HISTORY of pushes the components are the accumulated ones (C08_history_comps_plain, C08_history_comps_prefixed, C08_history_comps_verbatim: the prefix is read the same way after every step). What is left -- a bare verbatim prefix joined with a path that holds . / .. or a root, a verbatim drive followed by a rootless name, the verbatim prefix named UNC (D17, the exception the stability theorem carries, with a refuted-witness lemma) and a server with an empty share -- is decided by the C10 oracle.', NOTE_CORR),
     'C09': P(with_state(with_cons(gen_unary('c09')), ['pop']), 'Proved in Coq (Props/C09.v), Unix and Windows: parent is absent exactly when there is no component or the last one is a root or prefix; otherwise it is a leading slice of the input; pop truncates to it; the ancestors chain is finite. The components of the parent, READ AGAIN FROM SCRATCH, are those of the path without the last one -- at Unix from the back-step lemma of the core parser, at Windows for every input with all six prefix kinds and their look-alikes (C09_windows_parent, WinTrunc.v): the prefix grammar is stable under truncation of what follows the prefix (C09_prefix_truncation: every alternative is stable when its rest is shortened, failure of an alternative is inherited by every leading piece of the input), and the one exception, the verbatim prefix with the empty name truncated to nothing, cannot arise from a parent. The same holds along the whole ancestors chain (C09_windows_ancestors_chain). Tied to the code for all 18 families on every explored case (oracle_c09 re-parses the returned bytes with the specification).', NOTE_CORR),
     'C10': P(with_state(with_cons(gen_pairs('c10')), ['push', 'join', 'pop'], sched=True), 'Proved in Coq (Props/C10.v): for any double-ended component iterator whose components are determined by their bytes, helpers::iter_after decides exactly the leading-run / trailing-run relation (C10_abstract_front); at Unix, for all byte strings: starts_with iff q components are a leading run of p, ends_with mirror image, strip_prefix succeeds iff starts_with and its remainder re-parses to the rest, equal paths start/end with each other, a joined with a relative b starts with a and stripping yields what b adds. For prefix-free Windows paths components are determined by their bytes and the same theorems hold over wspec (C10_windows_*_plain). For EVERY pair of Windows paths one direction is a theorem (C10WinAll.v): whenever the components of q are a leading / trailing run of the components of p, starts_with / ends_with hold and strip_prefix succeeds with the rest (C10_windows_starts_with_complete, _ends_with_complete, _strip_prefix_complete, C10_windows_self), and the relations are characterised EXACTLY for every pair: starts_with / ends_with hold precisely when the byte spellings of the components of q are a leading / trailing run of the byte spellings of the components of p, and strip_prefix succeeds precisely when starts_with holds (C10_windows_starts_with_exact, _ends_with_exact, C10_windows_strip_iff_starts) -- the distance to the property sentence is exactly the finding D7; a join onto a base with a UNC / device / drive prefix and a non-empty rest starts with the base and stripping yields what b adds (C10_windows_join_starts_prefixed, _join_strip_prefixed), and a checked join onto a verbatim base followed by a root starts with the base (C10_windows_join_starts_verbatim). With prefixes components are not determined by their bytes: known finding D7; D10 and D15 are the two further Windows classes (refuted-witness lemmas); that outside the D7 class equal spellings mean equal components, and the re-reading of the remainder, are decided by oracle_c10 (component relations over the grammar spec, join-back, join consistency) on every explored pair.', NOTE_CORR),
     'C11': P(with_state(with_cons(gen_unary('c11')), ['norm']), 'Proved in Coq for all Unix byte strings (Props/C11.v): the normalised path read back is the lexical fold Spec.nfold of the input components, it contains no . or .., has the same root/absoluteness, and normalising again returns the same bytes (C11_unix_fold, C11_unix_clean, C11_unix_root, C11_unix_idempotent); the model fold equals Spec.nfold for any component list (C11_fold_is_nfold). Windows: the same three statements are proved for every prefix-free path whose names carry no drive look-alike (C11_windows_fold_plain, _idempotent_plain, _root_plain; C11_names_needed shows the hypothesis is necessary); the fold, idempotence and prefix-and-root-kept statements are also proved for every path with a UNC / device / drive prefix followed by a non-empty rest (C11_windows_fold_prefixed, _idempotent_prefixed, _head_prefixed) and, fold and idempotence, for every path with a verbatim prefix followed by a root (C11_windows_verbatim); bare prefixes and the verbatim prefixes named UNC or with the empty name are decided by oracle_c11 on every explored well-formed path.', NOTE_CORR),
-    'C12': P(with_state(with_cons(gen_pairs('c12', second='names')), ['sfn', 'wfn']), 'Proved in Coq for all inputs (Props/C12.v): file_name is the last component when it is a normal name and absent otherwise (both encodings); stem, a dot and the extension reproduce the name when an extension exists and the stem is the whole name otherwise; the four documented cases of the split; Unix replacement by a single valid name n: the components are the old ones with the last replaced by n, so the file name is n and the parent is the old parent, and without a file name the result is the old path joined with n. Windows replacement (pop, then the Windows push): without a file name it is the join; with one, the result read again has the old components with the last replaced by n, for every parent that is prefix-free and non-empty or has a UNC / device / drive prefix followed by a non-empty rest (C12_windows_replace, over the re-parse theorem of C09 and WinExtend.v) or a verbatim prefix followed by a root (C12_windows_replace_verbatim); a bare-prefix parent and the verbatim prefix named UNC are decided by oracle_c12 on every explored (path, name) pair.', NOTE_CORR),
+    'C12': P(with_state(with_cons(gen_pairs('c12', second='names')), ['sfn', 'wfn']), 'Proved in Coq for all inputs (Props/C12.v): file_name is the last component when it is a normal name and absent otherwise (both encodings); stem, a dot and the extension reproduce the name when an extension exists and the stem is the whole name otherwise; the four documented cases of the split; Unix replacement by a single valid name n: the components are the old ones with the last replaced by n, so the file name is n and the parent is the old parent, and without a file name the result is the old path joined with n. Windows replacement (pop, then the Windows push): without a file name it is the join; with one, the result read again has the old components with the last replaced by n, for every parent that is prefix-free and non-empty or has a UNC / device / drive prefix followed by a non-empty rest (C12_windows_replace, over the re-parse theorem of C09 and WinExtend.v), a bare drive (C12_windows_replace_bare_drive) or a verbatim prefix followed by a root (C12_windows_replace_verbatim), and then the file name is n and the parent read again has the old parent components (C12_windows_replace_file_name_parent); a bare verbatim parent and the verbatim prefix named UNC are decided by oracle_c12 on every explored (path, name) pair.', NOTE_CORR),
     'C13': P(with_state(with_cons(gen_c13), ['sext', 'wext']), 'Proved in Coq for all Unix buffers and extensions (Props/C13.v): without a file name the call returns false and leaves the buffer untouched; with a file name it returns true and the bytes are everything before the name, the old stem and (for a non-empty extension) a dot and the extension, whatever separators or . segments trailed the name; read back, the components are the old ones with the last replaced by the new name, so file name = stem[.ext] and the parent is unchanged, for every separator-free extension outside the known class D13 (refuted-witness lemma C13_d13_refuted); the truncation point is a UTF-8 character boundary and the result valid UTF-8 (no panic in the String twin). The last sentence of the property is a theorem too: the transcription of std::path::PathBuf::_set_extension and the model are the same function on every buffer and extension (C13_std_bytes, StdSetExt.v); the transcription is diffed against the real std on every explored case (pair.c13). For Windows the byte-level statement is a theorem for every prefix kind (C13_windows_none, C13_windows_bytes, C13Win.v), and so is the component-level one -- the result read again has the old components with the last replaced by the new name -- for prefix-free paths and paths with a UNC / device / drive prefix (C13_windows_components_plain, _prefixed, C13WinComps.v: a core generic in the separator test) and for paths with a verbatim prefix other than the one named UNC (C13_windows_components_verbatim, C13WinVerb.v: the same core for either setting of the normalisation flag); only that last class is left to oracle_c13.', NOTE_CORR),
     'C14': P(with_state(with_cons(gen_c14, same=True), ALL_FOCUS, sched=True, fam_filter=lambda f: '8' in f), 'Proved in Coq (Props/C14.v): utf8_valid is the RFC 3629 chain of steps; validity is preserved by concatenation and by cutting next to an ASCII byte; Unix push/extend keep buffers valid; file name, stem and extension of a valid Unix path are valid; under ANY schedule of front and back steps of the generic core parser (ASCII separators: Unix and the Windows body) on a valid UTF-8 window every later window -- what as_str of the partially consumed iterator shows -- and every normal name handed out is valid UTF-8 (C14_sched_valid, C14_unix_sched_valid), hence also parent and the remainder of strip_prefix (C14_unix_parent_valid, C14_unix_strip_prefix_valid); for the Windows iterator as a whole the prefix slice and what follows it are valid too, because every alternative of the prefix grammar stops next to an ASCII byte or at the end (C14_windows_prefix_valid), so every window, prefix and normal name under any schedule is valid (C14_windows_sched_valid); the set_extension truncation point is a character boundary and its result valid (no String::truncate panic). The faithfulness half (same bytes and outcome as the byte API) is decided by running every UTF-8 family next to the byte family on every explored case (same.*), the harness re-validating every &str it receives; conversions succeed exactly on valid UTF-8 (c14c).', NOTE_CORR),
     'C15': P(with_state(with_cons(gen_c15, same=True), ALL_FOCUS, sched=True, fam_filter=lambda f: f[0] in 'tp'), 'PARTIAL. Proved: derive selects Windows exactly when the bytes start with a backslash or the grammar specification finds a prefix (Props/C15.v C15_derive); the dispatch table regenerated from src/typed/** and src/platform.rs on every run satisfies forwards-to-same-method / re-wraps-same-variant (translator obligations). The dispatch theorem is about a regex-extracted table, not about the semantics of match or of the impl_typed_fn! macro. NOT proved: that every typed / platform operation gives the same answer as the wrapped one -- in the model the typed layer is a two-arm match by definition; that sentence is decided by diffing every typed/platform family against the byte family of its encoding on every explored case, variant tags included.', NOTE_CORR, technique='machine-checked proof in Coq 8.16.1 for the part named in level_claimed.text; the remainder of the property is decided by differential correspondence on explored cases only (stated in level_note)', level='translation_validation'),
